@@ -317,10 +317,10 @@ func designEquiv(c *core.Ctx) {}
 // ---- C18 -------------------------------------------------------------------------------------
 
 type ovParam struct {
-	name         string
-	kind         int // 0 base, 1 stage, 2 stage+organ
-	lo, hi       float64
-	get          func(cp map[string]interface{}, stage, organ int) (float64, bool)
+	name   string
+	kind   int // 0 base, 1 stage, 2 stage+organ
+	lo, hi float64
+	get    func(cp map[string]interface{}, stage, organ int) (float64, bool)
 }
 
 func checkC18(c *core.Ctx) {
@@ -335,10 +335,10 @@ func checkC18(c *core.Ctx) {
 	ymlParams := convertedParams(c, worker)
 	crops := []string{"SM", "SOY", "WW", "ZR", "K", "WG", "OA", "WRA", "SW", "LUP", "WR", "TR", "CCM"}
 	type spec struct {
-		name     string
-		kind     int
-		valid    []string
-		invalid  string
+		name    string
+		kind    int
+		valid   []string
+		invalid string
 	}
 	params := []spec{
 		{"MAXAMAX", 0, []string{"35", "62.5"}, "150"}, {"MINTMP", 0, []string{"3", "7.5"}, "60"}, {"WUMAXPF", 0, []string{"8", "13"}, "25"},
